@@ -180,6 +180,17 @@ CHECKS = {
     note="Trusted: the AST-to-effect translator (fail-closed; any call except bool/isinstance/len may raise, attribute reads pure); "
          "the trace semantics of the effect language (over-approximates Python's). No axioms.",
     technique="Coq: verified-by-computation atomicity checker over generated setter programs + state-machine invariant proof + setter oracle"),
+ "C10": dict(
+    category="proof",
+    text="Theorems (Coq, any name/value types): over EVERY sequence of add/remove calls hidden keys stay positional (the i-th hidden "
+         "parameter is named i); add makes has() true; remove (without keep_field) makes the name disappear and leaves the names of "
+         "all other parameters unchanged and in order - removing a positional parameter makes the following ones explicit; "
+         "keep_field keeps the name. The model follows remove/_should_remove/_fix_dependendent_params/add with the library's own "
+         "key-visibility choice and is tied to /repo by comparing (stripped name, showkey) lists after every call. The re-parse "
+         "clause (render, parse, compare names/values/visibility; get() finds the value) is checked by the oracle, not proved.",
+    design_ref="DESIGN.md section 5, C10",
+    note="Trusted: names are plain text; showkey=/before=/after= not passed; values opaque in the model; the re-parse clause is testing. No axioms.",
+    technique="Coq proof (invariant by induction over operation sequences on the parameter list) + model/implementation correspondence + re-parse oracle"),
 }
 
 NOT_YET = {}
